@@ -14,8 +14,8 @@ ID = 'C17'
 LEVEL = 'fault_enumeration'
 RULE = ('queries {finite flat facts; len/2 on lists of length 5, 20, 60; app/3 splitting a list; nat/1 and even/odd '
         '(infinitely many answers, each deeper); left recursion lp(X) :- lp(X). lp(a). (diverges before any answer); a '
-        'rule with a deep failing branch between answers} x EVERY recursion_limit in the range (each value moves the '
-        'point at which the limit strikes; quick: every 7th) x projection functions {identity, observe the variables, '
+        'rule with a deep failing branch between answers; registered Python predicates whose clean-up (finally) code needs 0, 3, 12 or 30 nested calls, queried directly and through call/1} x EVERY recursion_limit from 8 to 400 (each value moves the '
+        'point at which the limit strikes; quick: every value up to 89, then every 7th) x projection functions {identity, observe the variables, '
         'raise ValueError at the k-th answer for k=1..5, raise RuntimeError at the 2nd, raise StopIteration at the 2nd}, '
         'called from a shallow stack. Checked: no RecursionError escapes; the result is a prefix of RefProlog\'s answer '
         'sequence (projected), and the whole sequence when the limit exceeds the measured stack depth of an unbounded '
@@ -39,6 +39,33 @@ PROGRAM = [
 ]
 
 
+PY_DEPTHS = [0, 3, 12, 30]
+
+
+def register_python(yp):
+    """Python predicates pygD/1 with three solutions whose clean-up code (a finally block that runs
+    when the suspended generator is closed or finished) needs D nested calls of stack"""
+    def make(depth):
+        def helper(n):
+            if n > 0:
+                return helper(n - 1) + 1
+            return 0
+
+        def pred(arg1):
+            try:
+                for k in (1, 2, 3):
+                    for _ in impl.engine.unify(arg1, k):
+                        yield False
+            finally:
+                helper(depth)
+        return pred
+    for d in PY_DEPTHS:
+        yp.register_function('pyg%d' % d, make(d))
+
+
+PY_FACTS = [(F('pyg%d' % d, C(k)), None) for d in PY_DEPTHS for k in (1, 2, 3)]
+
+
 def lst(n):
     return L([C(i) for i in range(n)])
 
@@ -46,15 +73,18 @@ def lst(n):
 def queries():
     return [('flat', F('col', V('Q'))), ('len5', F('len', lst(5), V('Q'))), ('len20', F('len', lst(20), V('Q'))),
             ('len60', F('len', lst(60), V('Q'))), ('app', F('app', V('Q'), V('Q2'), lst(6))), ('nat', F('nat', V('Q'))),
-            ('evenodd', F('ev', V('Q'))), ('leftrec', F('lp', V('Q'))), ('deep', F('deep', V('Q')))]
+            ('evenodd', F('ev', V('Q'))), ('leftrec', F('lp', V('Q'))), ('deep', F('deep', V('Q')))] + \
+        [('pyg%d' % d, F('pyg%d' % d, V('Q'))) for d in PY_DEPTHS] + [('call-pyg12', F('call', F('pyg12', V('Q'))))]
 
 
 def bounds(tier):
-    return {'recursion_limits': 'every 7th of 40..400' if tier == 'quick' else 'every value 40..400'}
+    return {'recursion_limits': 'every value 8..89 and every 7th of 90..400' if tier == 'quick' else 'every value 8..400'}
 
 
 def limits(tier):
-    return list(range(40, 401, 7 if tier == 'quick' else 1))
+    if tier == 'quick':
+        return list(range(8, 90)) + list(range(90, 401, 7))
+    return list(range(8, 401))
 
 
 class ProjErr(ValueError):
@@ -146,6 +176,7 @@ def one_call(pytext, qname, goal, limit, pname, exp, need_depth):
     """-> None | (sig, detail) ; plus info tuple"""
     yp = impl.YP()
     yp.load_script_from_string(pytext, fn=impl.SCRIPT_FN)
+    register_python(yp)
     vm = {}
     args = [impl.to_engine(yp, x, vm) for x in goal[2]]
     obs = [impl.to_engine(yp, ('v', k), vm) for k in term_vars(goal)]
@@ -213,7 +244,7 @@ def reference():
     out = {}
     for qname, goal in queries():
         ref = Ref(60000, 140)
-        ref.consult(PROGRAM)
+        ref.consult(PROGRAM + PY_FACTS)
         obs = [('v', k) for k in term_vars(goal)]
         answers, st = ref.query(goal, obs, limit=400)
         out[qname] = {'answers': answers, 'complete': st == 'complete'}
@@ -233,6 +264,7 @@ def _shard(spec, acc):
     exp = reference()
     yp0 = impl.YP()
     yp0.load_script_from_string(pytext, fn=impl.SCRIPT_FN)
+    register_python(yp0)
     depth = {qn: (measure_depth(yp0, g) if exp[qn]['complete'] else None) for qn, g in queries()}
     acc.info['measured_stack_depth_of_unbounded_runs'] = {qn: d for qn, d in depth.items()}
     pnames = [p for p, _ in projections(lambda: None)]
@@ -292,6 +324,7 @@ def replay(case):
         goal = dict(queries())[case['query']]
         yp0 = impl.YP()
         yp0.load_script_from_string(pytext, fn=impl.SCRIPT_FN)
+        register_python(yp0)
         d = measure_depth(yp0, goal) if exp[case['query']]['complete'] else None
         bad, info = one_call(pytext, case['query'], goal, case['limit'], case['projection'], exp[case['query']], d)
         sys.setrecursionlimit(1000)
